@@ -16,12 +16,12 @@ REPO = os.environ.get("VERIF_REPO", "/repo")
 
 CRATES = {
     # crate name -> (package, directory relative to repo)
-    "sos_core": ("sos-core", "crates/core"),
+    "sos_core": ("sos-core", "crates/core", "files"),
     "sos_vault": ("sos-vault", "crates/vault"),
-    "sos_filesystem": ("sos-filesystem", "crates/filesystem"),
-    "sos_reducers": ("sos-reducers", "crates/reducers"),
-    "sos_remote_sync": ("sos-remote-sync", "crates/remote_sync"),
-    "sos_protocol": ("sos-protocol", "crates/protocol"),
+    "sos_filesystem": ("sos-filesystem", "crates/filesystem", "files"),
+    "sos_reducers": ("sos-reducers", "crates/reducers", "files"),
+    "sos_remote_sync": ("sos-remote-sync", "crates/remote_sync", "files"),
+    "sos_protocol": ("sos-protocol", "crates/protocol", "files"),
     "sos_search": ("sos-search", "crates/search"),
     "sos_server": ("sos-server", "crates/server"),
     "sos_backend": ("sos-backend", "crates/backend"),
@@ -36,7 +36,8 @@ def mir_path(crate):
 
 def dump_mir(crate, force=True, log=None):
     """Regenerate MIR for `crate` from /repo's current working tree. Returns (path, seconds)."""
-    pkg, rel = CRATES[crate]
+    pkg, rel = CRATES[crate][:2]
+    feats = CRATES[crate][2] if len(CRATES[crate]) > 2 else None
     out = mir_path(crate)
     os.makedirs(os.path.dirname(out), exist_ok=True)
     src = os.path.join(REPO, rel, "src", "lib.rs")
@@ -47,7 +48,10 @@ def dump_mir(crate, force=True, log=None):
     env["CARGO_NET_OFFLINE"] = "true"
     env["CARGO_TARGET_DIR"] = os.path.join(WORK, "nightly-target")
     env.pop("RUSTFLAGS", None)
-    cmd = ["cargo", "+nightly", "rustc", "-p", pkg, "--offline", "--lib", "--",
+    cmd = ["cargo", "+nightly", "rustc", "-p", pkg, "--offline", "--lib"]
+    if feats:
+        cmd += ["--features", feats]
+    cmd += ["--",
            "-Zunpretty=mir", "-C", "debug-assertions=off", "-C", "overflow-checks=on"]
     tmp = out + ".tmp"
     with open(tmp, "w") as fo, open(out + ".err", "w") as fe:
